@@ -224,6 +224,7 @@ def run(ctx, rep):
                 rep.check("C19.3", "C19.3/is_valid/flag-init", init == "False", loc=F.short_file(b["sp"]), found="flag initial value %s" % init, expected="false", nontrivial=False)
     import api_rules as AR
     ng = AR.check_getters(fx, rep, "C19.api", "mapping::MappingSummary")
+    AR.check_mapping_wiring(fx, rep, "C19.api")
     rep.floor("C19.api", ng, 5, "MappingSummary getters")
     # control: an early negative exit is a different per-record structure
     cx = ctx.controls()
